@@ -37,7 +37,7 @@ Shapes ==
           "a\rb", "\r", "\r\n\r\n", "x\r\n    y\r\n", "def x := 1\t+ 2", "\t", "def ü := 1", "# ü comment\ndef x := 1", "def x := \"ü\"\nprint(x)", "\"ü\" + 1",
           "def x := 99999999999999999999999999999999999999", "def x := 1E999999999", "def x := 007", "def x := 1.", "def x := .5", "def x := 1..2", "def x := 1E", "0x10",
           "def f(x: Int) -> Int => f(x)\nf(1)", "def f(vararg x: Int := 1) => x", "def f(vararg x: Int, vararg y: Int) => x", "def f(x: Int := ) => x",
-          "class A: A", "class A: B\nclass B: A\ndef x := A()", "type T: T", "class A\n    def f(self) -> A => self\ndef x := A().f().f().f()",
+          "class A: A", "class A: B\nclass B: A\ndef x := A()", "class Union\ndef x := Union()", "class Optional\ndef x: Optional? := None", "class Tuple", "class Callable", "class Any", "def Union() -> Int => 1", "class None", "class Int", "type T: T", "class A\n    def f(self) -> A => self\ndef x := A().f().f().f()",
           "class A(def a: A)", "class A\n    def x: A := A()", "def x: List[List[List[List[Int]]]] := []", "def x: Undefined := 1", "def x: Int[Int] := 1", "def x: List := []",
           "import", "from", "from a import", "import a as", "def", "def x", "def x :=", "class", "if", "if True", "if True then", "match", "match x\n", "while", "for", "for x in",
           "return", "return 1", "raise", "handle", "x handle", "x handle\n    err: E =>", "with", "with x", "pass\n    pass", "    pass", "\n\n\n", "", " ", "#", "##", "\"\"\"doc", "\"\"\"doc\"\"\"",
